@@ -32,7 +32,18 @@ pub fn config_for(r: &mut Rng, i: usize, cheap: bool) -> CircuitConfig {
 pub fn emit(e: &mut Emitter, seed: u64, thorough: bool) {
     let mut r = Rng::new(seed ^ 0x01);
     let n_cases = if thorough { 120 } else { 16 };
-    for i in 0..n_cases {
+    // reduction-schedule sweep: every mixed-arity schedule needs enough rows for all its layers, which
+    // the random cases below rarely reach — case numbers 1000+k use a 2^8..2^10-row multiplication chain
+    let schedules: Vec<FriReductionStrategy> = vec![
+        FriReductionStrategy::Fixed(vec![3, 2, 1]), FriReductionStrategy::Fixed(vec![1, 2, 3]), FriReductionStrategy::Fixed(vec![2, 2, 1, 1]),
+        FriReductionStrategy::Fixed(vec![1, 3, 2]), FriReductionStrategy::Fixed(vec![1, 1, 2, 3]), FriReductionStrategy::Fixed(vec![4, 1, 2]),
+        FriReductionStrategy::MinSize(None), FriReductionStrategy::MinSize(Some(2)), FriReductionStrategy::ConstantArityBits(3, 1),
+        FriReductionStrategy::ConstantArityBits(2, 0), FriReductionStrategy::Fixed(vec![2, 3, 3]), FriReductionStrategy::Fixed(vec![1, 4, 1, 1]),
+    ];
+    let n_sched = if thorough { schedules.len() } else { 5 };
+    let first = r.below(schedules.len() as u64) as usize;
+    let sweep: Vec<(usize, Option<FriReductionStrategy>)> = (0..n_sched).map(|k| (1000 + k, Some(schedules[(first + k) % schedules.len()].clone()))).collect();
+    for (i, sched) in (0..n_cases).map(|i| (i, None)).chain(sweep) {
         let features = r.below(16);
         // mixed Fixed schedules need at least 2^6 rows: large programs with hashing for those cases
         let nops = if i % 5 == 0 || i % 7 == 4 { r.range(100, 300) } else { r.range(6, 70) } as usize;
@@ -47,7 +58,18 @@ pub fn emit(e: &mut Emitter, seed: u64, thorough: bool) {
         let cheap = i % 3 != 0;
         let mut config = config_for(&mut r, i, cheap);
         // regression corpus of F-C01-1: Fixed schedules whose arities exceed the degree of a tiny circuit
-        let prog = if i == 1 || i == 8 {
+        let prog = if let Some(st) = &sched {
+            config = gen_config(&mut r, true);
+            config.zero_knowledge = false;
+            config.fri_config.cap_height = r.below(3) as usize;
+            config.fri_config.reduction_strategy = st.clone();
+            let n_mul = *r.pick(&[3000usize, 6000, 12000]);
+            let mut ops = vec![Op::Input(r.below(P)), Op::Input(r.below(P))];
+            for k in 0..n_mul { ops.push(Op::Mul(k, k + 1)); }
+            ops.push(Op::Public(n_mul));
+            ops.push(Op::Public(0));
+            Prog { ops, tables: vec![], skip_connect: false }
+        } else if i == 1 || i == 8 {
             config = CircuitConfig::standard_recursion_config();
             config.fri_config.cap_height = 0;
             config.fri_config.reduction_strategy = FriReductionStrategy::Fixed(if i == 1 { vec![3, 3] } else { vec![2, 3] });
@@ -64,6 +86,7 @@ pub fn emit(e: &mut Emitter, seed: u64, thorough: bool) {
             e.count("inadmissible: build panicked");
             continue;
         };
+        if sched.is_some() { e.count(&format!("schedule sweep: degree_bits {} arities {:?}", data.common.degree_bits(), data.common.fri_params.reduction_arity_bits)); }
         e.count(&format!("admissible zk={} lookups={} strategy={}", config.zero_knowledge, data.common.num_lookup_polys != 0,
             match config.fri_config.reduction_strategy { FriReductionStrategy::Fixed(_) => "fixed", FriReductionStrategy::ConstantArityBits(..) => "const", FriReductionStrategy::MinSize(_) => "minsize" }));
         let what = format!("program of {} ops (seed {seed}, case {i}), config {:?}", prog.ops.len(), config);
